@@ -243,3 +243,37 @@ Proof.
   exists [12; 0; 0; 4; 0; 7; 0; 0; 0; 0; 0; 4; 3; 0; 29; 0]. eexists. eexists. split; [reflexivity|].
   split; [vm_compute; reflexivity|]. split; [vm_compute; reflexivity|]. vm_compute. reflexivity.
 Qed.
+
+(* ------------------------------------------------------------------ canonicalize *)
+
+(* a hello inside the codec's domain is its own canonical form *)
+Lemma canonicalize_id {A} (w : wcodec A) : wsound w -> forall x, wwf w x = true -> canonicalize w x = Some x.
+Proof. intros S x W. unfold canonicalize. destruct (S x W) as [e [E D]]. rewrite E. exact D. Qed.
+
+(* whatever canonicalize returns is a fixed point of canonicalize, and its encoding is a fixed point
+   of decode-then-encode: the handshake continues with a value that means what its bytes say *)
+Lemma canonicalize_idem {A} (w : wcodec A) : wfixpoint w -> forall x raw c,
+  wenc w x = Some raw -> bytes_ok raw = true -> canonicalize w x = Some c ->
+  canonicalize w c = Some c /\ exists e, wenc w c = Some e /\ wdec w e = Some c.
+Proof.
+  intros F x raw c E Hb H. unfold canonicalize in H. rewrite E in H.
+  destruct (F raw c Hb H) as [e [Ee De]]. split.
+  - unfold canonicalize. rewrite Ee. exact De.
+  - exists e. split; assumption.
+Qed.
+
+Theorem canonicalize_hello :
+  (forall x, wwf w_client_hello x = true -> canonicalize w_client_hello x = Some x) /\
+  (forall x, wwf w_server_hello x = true -> canonicalize w_server_hello x = Some x) /\
+  (forall x raw c, wenc w_client_hello x = Some raw -> bytes_ok raw = true ->
+     canonicalize w_client_hello x = Some c ->
+     canonicalize w_client_hello c = Some c /\ exists e, wenc w_client_hello c = Some e /\ wdec w_client_hello e = Some c) /\
+  (forall x raw c, wenc w_server_hello x = Some raw -> bytes_ok raw = true ->
+     canonicalize w_server_hello x = Some c ->
+     canonicalize w_server_hello c = Some c /\ exists e, wenc w_server_hello c = Some e /\ wdec w_server_hello e = Some c).
+Proof.
+  split; [exact (canonicalize_id _ (proj1 client_hello_ok))|].
+  split; [exact (canonicalize_id _ server_hello_roundtrip)|].
+  split; [exact (canonicalize_idem _ (proj2 (proj2 client_hello_ok)))|].
+  exact (canonicalize_idem _ server_hello_fixpoint).
+Qed.
